@@ -27,6 +27,7 @@ structure Sim (s1 s2 : St) : Prop where
   sig : frameSig s1.stack = frameSig s2.stack
   psig : ptrSig s1.stack = ptrSig s2.stack
   dead : s1.dead = s2.dead
+  fix : s1.fixF4 = s2.fixF4
   m1 : s1.b0.mode ≠ .no
   m2 : s2.b0.mode ≠ .no
   bd1 : s1.Bounds
@@ -53,13 +54,13 @@ theorem alloc_abs (k : Nat) (b b' : Buf) (f : Pend → Pend) (hf : LP f) (hb : b
   · simp [Buf.onPend, extend, hg.valid]
   · simp [Buf.onPend, extend, hg.mode]
 
-theorem execMicro_sim (s1 s2 s1' s2' : St) (m : Micro) (hm : m.LP) (hs : Sim s1 s2)
-    (h1 : execMicro s1 m = .ok s1') (h2 : execMicro s2 m = .ok s2') : Sim s1' s2' := by
-  have hb1 := execMicro_bounds s1 s1' m hm hs.bd1 h1
-  have hb2 := execMicro_bounds s2 s2' m hm hs.bd2 h2
+theorem execBase_sim (s1 s2 s1' s2' : St) (m : Micro) (hm : m.LP) (hs : Sim s1 s2)
+    (h1 : execBase s1 m = .ok s1') (h2 : execBase s2 m = .ok s2') : Sim s1' s2' := by
+  have hb1 := execBase_bounds s1 s1' m hm hs.bd1 h1
+  have hb2 := execBase_bounds s2 s2' m hm hs.bd2 h2
   cases m with
   | alloc n save g =>
-    simp only [execMicro] at h1 h2
+    simp only [execBase] at h1 h2
     split at h1
     · cases h1
     · rename_i b1' hr1
@@ -70,7 +71,7 @@ theorem execMicro_sim (s1 s2 s1' s2' : St) (m : Micro) (hm : m.LP) (hs : Sim s1 
         subst h1; subst h2
         have a1 := alloc_abs _ _ _ (g s1.b0.pend.length) (hm _) hs.bd1.1 hr1
         have a2 := alloc_abs _ _ _ (g s2.b0.pend.length) (hm _) hs.bd2.1 hr2
-        refine ⟨?_, ?_, ?_, ?_, hs.b1, ?_, ?_, hs.dead, ?_, ?_, hb1, hb2⟩
+        refine ⟨?_, ?_, ?_, ?_, hs.b1, ?_, ?_, hs.dead, hs.fix, ?_, ?_, hb1, hb2⟩
         · simp only []; rw [a1.2.1, a2.2.1, hs.done]
         · simp only []; rw [a1.1, a2.1, hs.pend, hs.fill]
         · simp only []; rw [a1.2.2.1, a2.2.2.1, hs.fill]
@@ -83,14 +84,14 @@ theorem execMicro_sim (s1 s2 s1' s2' : St) (m : Micro) (hm : m.LP) (hs : Sim s1 
         · simp only []; rw [a1.2.2.2.2]; exact hs.m1
         · simp only []; rw [a2.2.2.2.2]; exact hs.m2
   | upd g =>
-    simp only [execMicro] at h1 h2
+    simp only [execBase] at h1 h2
     injection h1 with h1; injection h2 with h2
     subst h1; subst h2
-    refine ⟨?_, ?_, hs.fill, hs.valid, hs.b1, hs.sig, hs.psig, hs.dead, hs.m1, hs.m2, hb1, hb2⟩
+    refine ⟨?_, ?_, hs.fill, hs.valid, hs.b1, hs.sig, hs.psig, hs.dead, hs.fix, hs.m1, hs.m2, hb1, hb2⟩
     · simp only []; rw [onPend_done _ _ hs.bd1.1.1, onPend_done _ _ hs.bd2.1.1, hs.done]
     · simp only []; rw [onPend_pend _ _ hs.bd1.1.1, onPend_pend _ _ hs.bd2.1.1, hs.pend]
   | deref keep g =>
-    simp only [execMicro] at h1 h2
+    simp only [execBase] at h1 h2
     have hsig := hs.sig
     have hpsig := hs.psig
     split at h1
@@ -115,7 +116,7 @@ theorem execMicro_sim (s1 s2 s1' s2' : St) (m : Micro) (hm : m.LP) (hs : Sim s1 
             · split at h2
               · injection h1 with h1; injection h2 with h2
                 subst h1; subst h2
-                refine ⟨?_, ?_, hs.fill, hs.valid, hs.b1, ?_, ?_, hs.dead, hs.m1, hs.m2, hb1, hb2⟩
+                refine ⟨?_, ?_, hs.fill, hs.valid, hs.b1, ?_, ?_, hs.dead, hs.fix, hs.m1, hs.m2, hb1, hb2⟩
                 · simp only []; rw [onPend_done _ _ hs.bd1.1.1, onPend_done _ _ hs.bd2.1.1, hs.done]
                 · simp only []; rw [onPend_pend _ _ hs.bd1.1.1, onPend_pend _ _ hs.bd2.1.1, hs.pend]
                 · simp only []; split <;> simp only [frameSig_setTopPtr, hst1, hst2, hsig]
@@ -126,38 +127,50 @@ theorem execMicro_sim (s1 s2 s1' s2' : St) (m : Micro) (hm : m.LP) (hs : Sim s1 
                     exact congrArg _ hr
               · cases h2
             · cases h1
+  | finish offs =>
+    simp only [execBase] at h1 h2
+    injection h1 with h1; injection h2 with h2
+    subst h1; subst h2
+    exact hs
 
 /-- with auto-grow, a micro step never fails with buffer_is_full -/
-theorem execMicro_not_full (s : St) (m : Micro) (hmode : s.b0.mode ≠ .no) : execMicro s m ≠ .error .full := by
+theorem execBase_not_full (s : St) (m : Micro) (hmode : s.b0.mode ≠ .no) : execBase s m ≠ .error .full := by
   cases m with
   | alloc n save g =>
-    simp only [execMicro]
+    simp only [execBase]
     obtain ⟨b', hb'⟩ := reserve_ok_of_mode (n s.b0.pend) s.b0 hmode
     rw [hb']; simp
-  | upd g => simp [execMicro]
+  | upd g => simp [execBase]
   | deref keep g =>
-    simp only [execMicro]
+    simp only [execBase]
     split
     · simp
     · split
       · simp
       · split <;> simp
+  | finish offs => simp [execBase]
 
-/-- both runs of a micro program succeed ⇒ the results are similar; a failure is never buffer_is_full -/
-theorem execMicros_sim (ms : List Micro) (s1 s2 : St) (hm : AllLP ms) (hs : Sim s1 s2) :
-    ((execMicros s1 ms).2 = none → (execMicros s2 ms).2 = none → Sim (execMicros s1 ms).1 (execMicros s2 ms).1) ∧
-    (execMicros s1 ms).2 ≠ some .full ∧ (execMicros s2 ms).2 ≠ some .full := by
+/-- both runs of a micro program succeed ⇒ the results are similar; a failure is never
+    buffer_is_full.  Generic in the step function. -/
+theorem execList_sim (ex : St → Micro → Except Err St)
+    (hsim : ∀ s1 s2 s1' s2' m, m.LP → Sim s1 s2 → ex s1 m = .ok s1' → ex s2 m = .ok s2' → Sim s1' s2')
+    (hnf : ∀ s m, s.b0.mode ≠ .no → ex s m ≠ .error .full)
+    (ms : List Micro) (s1 s2 : St) (hm : AllLP ms) (hs : Sim s1 s2) :
+    ((execList ex s1 ms).2 = none → (execList ex s2 ms).2 = none → Sim (execList ex s1 ms).1 (execList ex s2 ms).1) ∧
+    (execList ex s1 ms).2 ≠ some .full ∧ (execList ex s2 ms).2 ≠ some .full := by
   induction ms generalizing s1 s2 with
-  | nil => exact ⟨fun _ _ => hs, by simp [execMicros], by simp [execMicros]⟩
+  | nil => exact ⟨fun _ _ => hs, by simp [execList], by simp [execList]⟩
   | cons m ms ih =>
     have hm' : AllLP ms := fun x hx => hm x (List.mem_cons_of_mem _ hx)
     have hml : m.LP := hm m List.mem_cons_self
-    have nf1 := execMicro_not_full s1 m hs.m1
-    have nf2 := execMicro_not_full s2 m hs.m2
-    simp only [execMicros]
-    cases h1 : execMicro s1 m with
+    have nf1 := hnf s1 m hs.m1
+    have nf2 := hnf s2 m hs.m2
+    have self1 : Sim s1 s1 := ⟨rfl, rfl, rfl, rfl, rfl, rfl, rfl, rfl, rfl, hs.m1, hs.m1, hs.bd1, hs.bd1⟩
+    have self2 : Sim s2 s2 := ⟨rfl, rfl, rfl, rfl, rfl, rfl, rfl, rfl, rfl, hs.m2, hs.m2, hs.bd2, hs.bd2⟩
+    simp only [execList]
+    cases h1 : ex s1 m with
     | error e1 =>
-      cases h2 : execMicro s2 m with
+      cases h2 : ex s2 m with
       | error e2 =>
         refine ⟨by simp, ?_, ?_⟩
         · intro h; simp at h; rw [h1, h] at nf1; exact nf1 rfl
@@ -166,33 +179,99 @@ theorem execMicros_sim (ms : List Micro) (s1 s2 : St) (hm : AllLP ms) (hs : Sim 
         refine ⟨by simp, ?_, ?_⟩
         · intro h; simp at h; rw [h1, h] at nf1; exact nf1 rfl
         · simp only []
-          have hs' : Sim s2' s2' := by
-            have b2 := execMicro_bounds s2 s2' m hml hs.bd2 h2
-            have hmode : s2'.b0.mode ≠ .no := by
-              have := (execMicro_sim s2 s2 s2' s2' m hml
-                ⟨rfl, rfl, rfl, rfl, rfl, rfl, rfl, rfl, hs.m2, hs.m2, hs.bd2, hs.bd2⟩ h2 h2).m1
-              exact this
-            exact ⟨rfl, rfl, rfl, rfl, rfl, rfl, rfl, rfl, hmode, hmode, b2, b2⟩
-          exact (ih s2' s2' hm' hs').2.1
+          exact (ih s2' s2' hm' (hsim s2 s2 s2' s2' m hml self2 h2 h2)).2.1
     | ok s1' =>
-      cases h2 : execMicro s2 m with
+      cases h2 : ex s2 m with
       | error e2 =>
         refine ⟨by simp, ?_, ?_⟩
         · simp only []
-          have hs' : Sim s1' s1' := by
-            have b1 := execMicro_bounds s1 s1' m hml hs.bd1 h1
-            have hmode : s1'.b0.mode ≠ .no :=
-              (execMicro_sim s1 s1 s1' s1' m hml
-                ⟨rfl, rfl, rfl, rfl, rfl, rfl, rfl, rfl, hs.m1, hs.m1, hs.bd1, hs.bd1⟩ h1 h1).m1
-            exact ⟨rfl, rfl, rfl, rfl, rfl, rfl, rfl, rfl, hmode, hmode, b1, b1⟩
-          exact (ih s1' s1' hm' hs').2.1
+          exact (ih s1' s1' hm' (hsim s1 s1 s1' s1' m hml self1 h1 h1)).2.1
         · intro h; simp at h; rw [h2, h] at nf2; exact nf2 rfl
       | ok s2' =>
         simp only []
-        exact ih s1' s2' hm' (execMicro_sim s1 s2 s1' s2' m hml hs h1 h2)
+        exact ih s1' s2' hm' (hsim s1 s2 s1' s2' m hml hs h1 h2)
+
+theorem pendingTop_sim (s1 s2 : St) (hs : Sim s1 s2) : pendingTop s1 = pendingTop s2 := by
+  have h := hs.psig
+  unfold pendingTop
+  cases h1 : s1.stack with
+  | nil => cases h2 : s2.stack with
+    | nil => rfl
+    | cons f r => rw [h1, h2] at h; simp [ptrSig] at h
+  | cons f1 r1 => cases h2 : s2.stack with
+    | nil => rw [h1, h2] at h; simp [ptrSig] at h
+    | cons f2 r2 =>
+      rw [h1, h2] at h
+      simp only [ptrSig, List.map_cons, List.cons.injEq] at h
+      have := congrArg Option.isSome h.1
+      simpa using this
+
+theorem execMicro_not_full (s : St) (m : Micro) (hmode : s.b0.mode ≠ .no) : execMicro s m ≠ .error .full := by
+  cases m with
+  | finish offs =>
+    simp only [execMicro]
+    split
+    · split
+      · simp
+      · simp
+      · rename_i s' e hne he
+        intro h; injection h with h; subst h
+        exact hne rfl
+    · simp
+  | alloc n save g => simp only [execMicro]; exact execBase_not_full s _ hmode
+  | upd g => simp only [execMicro]; exact execBase_not_full s _ hmode
+  | deref keep g => simp only [execMicro]; exact execBase_not_full s _ hmode
+
+theorem execMicro_sim (s1 s2 s1' s2' : St) (m : Micro) (hm : m.LP) (hs : Sim s1 s2)
+    (h1 : execMicro s1 m = .ok s1') (h2 : execMicro s2 m = .ok s2') : Sim s1' s2' := by
+  cases m with
+  | finish offs =>
+    have hl := execList_sim execBase execBase_sim execBase_not_full (mCommentText offs []) s1 s2
+      (allLP_mCommentText _ _) hs
+    have hp := pendingTop_sim s1 s2 hs
+    simp only [execMicro, ← hs.fix, ← hp] at h1 h2
+    cases hc : (s1.fixF4 && pendingTop s1) with
+    | true =>
+      simp only [hc, ↓reduceIte] at h1 h2
+      generalize execList execBase s1 (mCommentText offs []) = r1 at *
+      generalize execList execBase s2 (mCommentText offs []) = r2 at *
+      obtain ⟨t1, e1⟩ := r1
+      obtain ⟨t2, e2⟩ := r2
+      obtain ⟨hsim, nf1, nf2⟩ := hl
+      cases e1 with
+      | some e1 =>
+        cases e1 with
+        | full => exact absurd rfl nf1
+        | stale => simp at h1
+        | null => simp at h1
+        | misaligned => simp at h1
+      | none =>
+        cases e2 with
+        | some e2 =>
+          cases e2 with
+          | full => exact absurd rfl nf2
+          | stale => simp at h2
+          | null => simp at h2
+          | misaligned => simp at h2
+        | none =>
+          simp only [Except.ok.injEq] at h1 h2
+          subst h1; subst h2
+          exact hsim rfl rfl
+    | false =>
+      simp only [hc, Bool.false_eq_true, ↓reduceIte, Except.ok.injEq] at h1 h2
+      subst h1; subst h2
+      exact hs
+  | alloc n save g => simp only [execMicro] at h1 h2; exact execBase_sim s1 s2 s1' s2' _ hm hs h1 h2
+  | upd g => simp only [execMicro] at h1 h2; exact execBase_sim s1 s2 s1' s2' _ hm hs h1 h2
+  | deref keep g => simp only [execMicro] at h1 h2; exact execBase_sim s1 s2 s1' s2' _ hm hs h1 h2
+
+theorem execMicros_sim (ms : List Micro) (s1 s2 : St) (hm : AllLP ms) (hs : Sim s1 s2) :
+    ((execMicros s1 ms).2 = none → (execMicros s2 ms).2 = none → Sim (execMicros s1 ms).1 (execMicros s2 ms).1) ∧
+    (execMicros s1 ms).2 ≠ some .full ∧ (execMicros s2 ms).2 ≠ some .full :=
+  execList_sim execMicro execMicro_sim execMicro_not_full ms s1 s2 hm hs
 
 theorem sim_refl (s : St) (hm : s.b0.mode ≠ .no) (hb : s.Bounds) : Sim s s :=
-  ⟨rfl, rfl, rfl, rfl, rfl, rfl, rfl, rfl, hm, hm, hb, hb⟩
+  ⟨rfl, rfl, rfl, rfl, rfl, rfl, rfl, rfl, rfl, hm, hm, hb, hb⟩
 
 theorem commit_done (b : Buf) (h : b.committed ≤ b.written) :
     ({ b with committed := b.written } : Buf).done = b.done ++ b.pend ∧
@@ -207,15 +286,15 @@ theorem applyAfter_sim (a : After) (s1 s2 : St) (hs : Sim s1 s2) : Sim (applyAft
   | nothing => exact hs
   | push off k =>
     exact ⟨hs.done, hs.pend, hs.fill, hs.valid, hs.b1, by simp [applyAfter, frameSig] at *; exact hs.sig,
-      by simp [applyAfter, ptrSig] at *; exact hs.psig, hs.dead, hs.m1, hs.m2, b1, b2⟩
+      by simp [applyAfter, ptrSig] at *; exact hs.psig, hs.dead, hs.fix, hs.m1, hs.m2, b1, b2⟩
   | pop =>
-    refine ⟨hs.done, hs.pend, hs.fill, hs.valid, hs.b1, ?_, ?_, hs.dead, hs.m1, hs.m2, b1, b2⟩
+    refine ⟨hs.done, hs.pend, hs.fill, hs.valid, hs.b1, ?_, ?_, hs.dead, hs.fix, hs.m1, hs.m2, b1, b2⟩
     · have := congrArg List.tail hs.sig; simpa [applyAfter, frameSig, List.map_tail] using this
     · have := congrArg List.tail hs.psig; simpa [applyAfter, ptrSig, List.map_tail] using this
   | commit =>
     have c1 := commit_done s1.b0 hs.bd1.1.1
     have c2 := commit_done s2.b0 hs.bd2.1.1
-    refine ⟨?_, ?_, hs.fill, hs.valid, hs.b1, hs.sig, hs.psig, hs.dead, hs.m1, hs.m2, b1, b2⟩
+    refine ⟨?_, ?_, hs.fill, hs.valid, hs.b1, hs.sig, hs.psig, hs.dead, hs.fix, hs.m1, hs.m2, b1, b2⟩
     · simp only [applyAfter]; rw [c1.1, c2.1, hs.done, hs.pend]
     · simp only [applyAfter]; rw [c1.2, c2.2]
 
@@ -273,12 +352,12 @@ theorem execBufOp_sim (s1 s2 : St) (o : BufOp) (ho : o = .commit ∨ o = .rollba
   rcases ho with rfl | rfl | rfl
   · have c1 := commit_done s1.b0 hs.bd1.1.1
     have c2 := commit_done s2.b0 hs.bd2.1.1
-    refine ⟨?_, ?_, hs.fill, hs.valid, hs.b1, hs.sig, hs.psig, hs.dead, hs.m1, hs.m2, b1, b2⟩
+    refine ⟨?_, ?_, hs.fill, hs.valid, hs.b1, hs.sig, hs.psig, hs.dead, hs.fix, hs.m1, hs.m2, b1, b2⟩
     · simp only [execBufOp]; rw [c1.1, c2.1, hs.done, hs.pend]
     · simp only [execBufOp]; rw [c1.2, c2.2]
   · have c1 := rollback_abs s1.b0
     have c2 := rollback_abs s2.b0
-    refine ⟨?_, ?_, hs.fill, hs.valid, hs.b1, hs.sig, hs.psig, hs.dead, hs.m1, hs.m2, b1, b2⟩
+    refine ⟨?_, ?_, hs.fill, hs.valid, hs.b1, hs.sig, hs.psig, hs.dead, hs.fix, hs.m1, hs.m2, b1, b2⟩
     · simp only [execBufOp]; rw [c1.1, c2.1, hs.done]
     · simp only [execBufOp]; rw [c1.2, c2.2]
   · exact hs
